@@ -921,7 +921,7 @@ Definition canon_unmarshal (sch : schema) (mid : nat) : list ustmt :=
 
 (* ---- the statement the proof task proves (it becomes a Theorem in Properties/) --------------------------------------------
    For every wf schema, DiscardUnknown setting, depth budget, message type, target (a fresh message, or any well-typed message
-   to merge into) and input shorter than 2^63 bytes (a Go slice): the canonical program, with the children decoded by the model's
+   to merge into) and input shorter than 2^63 - 8 bytes (a Go slice; see the bound below): the canonical program, with the children decoded by the model's
    decoder one level down ([unmarshal_at] with fuel f, depth-1), computes what the model's decoder computes at this level
    ([unmarshal_at] with fuel S f, depth) — value, error, panic and out-of-fuel alike. Decode.pulsar_unmarshal is the instance
    f = length bs, depth = recursion_limit ([run_unmarshal_top]). *)
@@ -929,7 +929,7 @@ Definition unmarshal_prog_correct_stmt : Prop :=
   forall sch discard f depth mid target bs,
     wf sch = true -> (mid < length sch)%nat ->
     (target = VNil \/ wt_msg sch mid target = true) ->
-    Z.of_nat (length bs) + 8 < Z.of_N two63 ->   (* +8: decodeFixed64's guard `(iNdEx + 8) > l` must not wrap; found by the proof, T6 *)
+    Z.of_nat (length bs) + 8 < Z.of_N two63 ->    (* +8: decodeFixed64's guard `(iNdEx + 8) > l` must not wrap; found by the proof, T6 *)
     run_unmarshal sch discard (unmarshal_at sch discard f (depth - 1)) depth mid (canon_unmarshal sch mid) target bs
     = Some (unmarshal_at sch discard (S f) depth mid target bs).
 
